@@ -21,9 +21,20 @@ class FactSet:
                 # private functions are addressed by role: located by structure, carried under their canonical path
                 import roles
                 v, found = roles.canonicalise(v)
-                moved = {role: actual for role, actual in found.items() if actual != roles.P + role}
+                moved = {role: actual for role, actual in found.items() if role.startswith("(public)") or actual != roles.P + role}
                 if moved:
                     ck.extra.setdefault("roles_located_under_another_name", {}).update(moved)
+            elif k.split(".")[0] != "microscpi_macros":
+                # witness / target crates mention the library's public items: same relocation
+                import json
+                import re
+                import roles
+                text = json.dumps(v)
+                mv = roles.relocated(text)
+                if mv:
+                    for a in sorted(mv, key=len, reverse=True):
+                        text = re.sub(re.escape(a) + r"(?![A-Za-z0-9_])", mv[a], text)
+                    v = json.loads(text)
             self.crates[k] = hir.Crate(v)
 
     def crate(self, stem):
@@ -79,15 +90,20 @@ def summarize(crate, path, ck=None, closure=False):
     ps._inl_stack.append(hir.base_path(path))
     if crate.body("microscpi::parser::take_while") is not None:
         ps.take_while_fn = "microscpi::parser::take_while"
+    ps.curried = curried_roles(crate)
     v = hir.async_full(b["value"])
     params = b["params"]
     if closure:
         c = returned_closure(v)
         if c is None:
-            return None, None
-        # bind the outer params first, then the closure params
-        st_params = params + c["params"]
-        exits = ps.summarize(c["body"], st_params)
+            if hir.base_path(path) not in curried_roles(crate):
+                return None, None
+            # the uncurried form `f(ctx.., input)` of a parser factory: context parameters and input are all parameters
+            exits = ps.summarize(v, params)
+        else:
+            # bind the outer params first, then the closure params
+            st_params = params + c["params"]
+            exits = ps.summarize(c["body"], st_params)
     else:
         exits = ps.summarize(v, params)
     if ck is not None:
@@ -111,6 +127,7 @@ def inline_helpers(crate):
     if key in _inl:
         return _inl[key]
     out = {}
+    parse_parts = _parts_of_parse(crate)
     for b in crate.facts["bodies"]:
         d = b["def"]
         if b["kind"] not in ("Fn", "AssocFn") or "::{" in d or b.get("trait") or b.get("trait_default"):
@@ -118,6 +135,8 @@ def inline_helpers(crate):
         if not d.startswith(crate.name + "::") and not d.startswith("<" + crate.name + "::"):
             continue
         if "Public" in (b.get("vis") or "Public"):
+            continue
+        if d in curried_roles(crate):
             continue
         ret = b.get("ret", "")
         ptys = [p.get("ty", "") for p in b["params"]]
@@ -127,11 +146,70 @@ def inline_helpers(crate):
             # byte, a radix letter ...) is evaluated in place, so that its instances are told apart by their arguments
             if d.split("::")[-1] in SKELETON_VOCABULARY or not ptys or any("Node" in t or "Vec<" in t for t in ptys):
                 continue
-        if ret.startswith("core::result::Result<(&") and len(b["params"]) <= 1:
+        if ret.startswith("core::result::Result<(&") and len(b["params"]) <= 1 and d not in parse_parts:
             continue
-        out[hir.base_path(d)] = {"params": b["params"], "value": hir.async_full(b["value"]), "def": d}
+        out[hir.base_path(d)] = {"params": b["params"], "value": hir.async_full(b["value"]), "def": d, "generics": b.get("generics") or []}
     _inl[key] = out
     return out
+
+
+FACTORY_ROLES = ("command_program_header", "compound_command_program_header", "common_command_program_header", "arguments")
+_cur = {}
+
+
+def curried_roles(crate):
+    """The parser factories of the grammar (header parsers, arguments) that the tree writes in uncurried form,
+    `f(ctx.., input) -> ParseResult` instead of `f(ctx..) -> impl Fn(input) -> ParseResult`. pathsum presents a call
+    `f(a, b, input)` of such a function as the application `f(a, b)(input)`, so that both forms look alike to the rules."""
+    key = id(crate)
+    if key not in _cur:
+        import roles
+        out = set()
+        for r in FACTORY_ROLES:
+            b = crate.body(roles.P + r)
+            if b is not None and len(b["params"]) >= 2 and (b.get("ret") or "").startswith("core::result::Result<(&") and returned_closure(hir.async_full(b["value"])) is None:
+                out.add(roles.P + r)
+        _cur[key] = out
+    return _cur[key]
+
+
+def parser_input(crate, path):
+    """name of the input parameter of a parser factory (the returned closure's parameter, or the last parameter of the
+    uncurried form)"""
+    b = crate.body(path)
+    if b is None:
+        return None
+    cl = returned_closure(hir.async_full(b["value"]))
+    p = cl["params"][0] if cl is not None else b["params"][-1]
+    return p.get("name")
+
+
+def _parts_of_parse(crate):
+    """Private parser-shaped functions that exist only as pieces of `parse` (every function that mentions them is
+    `parse` or another such piece): `parse` split into steps. They are evaluated in place, so that the rules see `parse`
+    as one function however it is cut up. The named parts of the grammar (roles) and anything used from elsewhere stay
+    nodes of the skeleton."""
+    import roles
+    PARSE = roles.P + "parse"
+    if crate.body(PARSE) is None:
+        return set()
+    role_paths = {roles.P + r for r in ("parse", "satisfy", "tag", "take_while", "optional", "whitespace", "is_whitespace", "program_mnemonic", "header_separator",
+                                        "argument_separator", "argument", "arguments", "command_program_header", "compound_command_program_header", "common_command_program_header")}
+    fns = {}
+    for b in crate.facts["bodies"]:
+        d = b["def"]
+        if b["kind"] == "Fn" and "::{" not in d and d.startswith(crate.name + "::"):
+            fns[d] = roles._refs(b["value"])
+    cand = {d for d in fns if d not in role_paths and (crate.body(d).get("ret") or "").startswith("core::result::Result<(&") and "Public" not in (crate.body(d).get("vis") or "Public")}
+    changed = True
+    while changed:
+        changed = False
+        for d in list(cand):
+            callers = {c for c, refs in fns.items() if d in refs and c != d}
+            if not callers or not all(c == PARSE or c in cand for c in callers):
+                cand.discard(d)
+                changed = True
+    return cand
 
 
 def walk_inlined(crate, value, _seen=None):
